@@ -367,3 +367,39 @@ Proof.
     + apply del_plain; assumption.
     + destruct (find a d); [|assumption]. apply put_plain; [exact Ho|apply del_plain; assumption].
 Qed.
+
+(* ------------------------------------------------------------------ "compilable" made explicit *)
+(* in canCl's default branch modfile.ClassExt is just path.Ext (its "_suffix.gox" rule only fires for .gox,
+   which canCl has already accepted), so a file is compilable iff its extension is one of the four source
+   extensions or is registered as a class extension of the module *)
+Lemma class_ext_not_gox n : path_ext n <> ext_gox -> class_ext n = path_ext n.
+Proof.
+  intros H. unfold class_ext. destruct (str_eqb (path_ext n) ext_gox) eqn:E; [|reflexivity].
+  apply str_eqb_eq in E. contradiction.
+Qed.
+
+Theorem can_cl_spec classes n : can_cl classes n = true <->
+  (path_ext n = ext_go \/ path_ext n = ext_xgo \/ path_ext n = ext_gop \/ path_ext n = ext_gox)
+  \/ In (path_ext n) classes.
+Proof.
+  unfold can_cl. cbv zeta.
+  destruct (str_eqb (path_ext n) ext_go) eqn:E1; [apply str_eqb_eq in E1; cbn [orb]; intuition|].
+  destruct (str_eqb (path_ext n) ext_xgo) eqn:E2; [apply str_eqb_eq in E2; cbn [orb]; intuition|].
+  destruct (str_eqb (path_ext n) ext_gop) eqn:E3; [apply str_eqb_eq in E3; cbn [orb]; intuition|].
+  destruct (str_eqb (path_ext n) ext_gox) eqn:E4; [apply str_eqb_eq in E4; cbn [orb]; intuition|].
+  cbn [orb].
+  assert (N1 : path_ext n <> ext_go) by (intros E; rewrite E in E1; discriminate).
+  assert (N2 : path_ext n <> ext_xgo) by (intros E; rewrite E in E2; discriminate).
+  assert (N3 : path_ext n <> ext_gop) by (intros E; rewrite E in E3; discriminate).
+  assert (N4 : path_ext n <> ext_gox) by (intros E; rewrite E in E4; discriminate).
+  rewrite class_ext_not_gox by assumption. rewrite existsb_exists. split.
+  - intros (x & I & E). apply str_eqb_eq in E. subst x. right. exact I.
+  - intros [[E|[E|[E|E]]]|I]; try contradiction. exists (path_ext n). split; [exact I|apply str_eqb_eq; reflexivity].
+Qed.
+
+(* the relevant entries, declaratively *)
+Theorem relevant_spec classes e : relevant classes e = true <->
+  e_dir e = false /\ us_prefix (e_name e) = false /\ can_cl classes (e_name e) = true /\ e_info_ok e = true.
+Proof.
+  unfold relevant. destruct (e_dir e), (us_prefix (e_name e)), (can_cl classes (e_name e)), (e_info_ok e); cbn; intuition congruence.
+Qed.
